@@ -69,7 +69,7 @@ func (h *c09HookRec) line(ev string, j int, r string) {
 	})
 }
 
-func c09HookSettings(c c09HookCfg, h *c09HookRec, expiry time.Duration) worker.DefaultWorkerPoolSettings {
+func c09HookSettings(c c09HookCfg, h *c09HookRec, expiry time.Duration) *worker.DefaultWorkerPoolSettings {
 	q0 := fpgo.NewBufferedChannelQueue[func()](1, 1, 1)
 	jam := time.Hour
 	if c.jam {
@@ -90,7 +90,7 @@ func c09HookSettings(c c09HookCfg, h *c09HookRec, expiry time.Duration) worker.D
 			}
 			h.line("handler", id, fmt.Sprint(p))
 		})
-	s := p0.DefaultWorkerPoolSettings
+	s := wpSettingsCopy(p0)
 	p0.Close()
 	return s
 }
@@ -111,7 +111,7 @@ func c09HookRound(w *ndWriter, seed int64, c c09HookCfg, base int) int {
 	h.rec.ev(E{"ev": "reset", "pt": "-", "thr": "-", "j": 0, "wc": 0, "wb": 0, "r": "-",
 		"njobs": c.njobs, "panic": c.panics, "max": c.max, "standby": c.standby, "batch": c.batch, "qcap": 16, "expiry": c.expiry})
 	q := fpgo.NewBufferedChannelQueue[func()](16, 16, 4).SetLoadFromPoolDuration(50 * time.Microsecond)
-	pool := worker.NewDefaultWorkerPool(q, &settings)
+	pool := worker.NewDefaultWorkerPool(q, settings)
 	h.pool.Store(pool)
 	var started int32
 	var wg sync.WaitGroup
